@@ -20,7 +20,7 @@ pub struct Prog {
 /// Components: V vertex-only, H host-only, B both, F fragment-input-only, N nested host, R runtime-array host, W workgroup/private host.
 pub fn programs() -> Vec<Prog> {
     let mut out = vec![];
-    let comps = ["V", "H", "B", "F", "N", "W", "L"];
+    let comps = ["V", "H", "B", "F", "N", "W", "L", "P"];
     let mut masks: Vec<(usize, bool, bool)> = vec![];
     for m in 1..(1usize << comps.len()) {
         // every single component, every pair, the full set, and a few triples
@@ -30,7 +30,7 @@ pub fn programs() -> Vec<Prog> {
         }
     }
     // runtime-array variants
-    for m in [0usize, 1, 2, 9, 63, 127] {
+    for m in [0usize, 1, 2, 9, 63, 127, 255] {
         masks.push((m, true, m % 2 == 1));
     }
     for (m, with_r, extras) in masks {
@@ -74,6 +74,12 @@ pub fn programs() -> Vec<Prog> {
             structs.push(RoleStruct { name: "WData", host: true, rts: false });
             structs.push(RoleStruct { name: "PData", host: true, rts: false });
         }
+        if has("P") {
+            // a struct-typed push constant: host-shareable struct that also feeds create_pipeline_layout
+            src.push_str("struct PushConsts { tint: vec4<f32>, offset: vec4<f32> };\nvar<push_constant> push_consts: PushConsts;\n");
+            structs.push(RoleStruct { name: "PushConsts", host: true, rts: false });
+            body.push_str("    acc += push_consts.tint.x;\n");
+        }
         if has("L") {
             // member shapes must not influence the derive list: long arrays, nested long arrays
             src.push_str(&format!("struct LInner {{ big: array<vec4<f32>, 33> }};\nstruct LOuter {{ inner: LInner, grid: array<array<u32, 40>, 2>, small: array<f32, 32> }};\n@group(0) @binding({binding}) var<storage, read> long_arrays: LOuter;\n"));
@@ -87,8 +93,9 @@ pub fn programs() -> Vec<Prog> {
             structs.push(RoleStruct { name: "RData", host: true, rts: true });
         }
         if extras {
-            src.push_str(&format!("const SCALE: f32 = 2.0;\noverride gain: f32 = 1.0;\n@id(4) override on: bool;\nvar<push_constant> pc: vec4<f32>;\n@group(0) @binding({binding}) var tex: texture_2d<f32>;\n@group(0) @binding({}) var smp: sampler;\n", binding + 1));
-            body.push_str("    acc += pc.x * gain * SCALE;\n    if on { acc += textureSampleLevel(tex, smp, vec2<f32>(0.0), 0.0).x; }\n");
+            let (pc_decl, pc_use) = if has("P") { ("", "1.0") } else { ("var<push_constant> pc: vec4<f32>;\n", "pc.x") };
+            src.push_str(&format!("const SCALE: f32 = 2.0;\noverride gain: f32 = 1.0;\n@id(4) override on: bool;\n{pc_decl}@group(0) @binding({binding}) var tex: texture_2d<f32>;\n@group(0) @binding({}) var smp: sampler;\n", binding + 1));
+            body.push_str(&format!("    acc += {pc_use} * gain * SCALE;\n    if on {{ acc += textureSampleLevel(tex, smp, vec2<f32>(0.0), 0.0).x; }}\n"));
         }
         let _ = binding;
         src.push_str(&format!("@vertex fn vs_main({}) -> @builtin(position) vec4<f32> {{\n    var acc: f32 = 0.0;\n{body}    return vec4<f32>(acc);\n}}\n", vparams.join(", ")));
